@@ -36,6 +36,9 @@ T = {
  "C08": ("fault_enumeration", "fault enumeration: the writer dies at EVERY SQL-statement / commit boundary of generated operation sequences (in-process death for all, forked children dying by os._exit for a subset, both must agree); the re-opened file is compared with a dict model", "§4 C08",
          "Generated operation sequences on a file-backed Journaler (create/load of up to 3 sessions incl. mirror CompIDs, persist in/out fresh/duplicate/out-of-order/binary, set_seq_num in all argument modes, reset): a dry run numbers every boundary (before/after each execute and commit, constructor included); the writer is killed at every one of them and a fresh Journaler on the file must report exactly the model state before or after the operation in flight (counters on both load paths, all rows of both directions byte for byte); normal endings (del, interpreter exit in a real subprocess, killed after the last operation) must give the final state.",
          "process death, not power loss (sqlite3 and the OS trusted, as the property says); boundaries are Python-level statement boundaries, a death inside one sqlite3 C call is sqlite's own atomicity"),
+ "C11": ("exploration", "enumerated cell product on fresh real connections judged from callbacks, transport tap, state and live+stored counters", "§4 C11",
+         "One fresh AsyncFIXClient / AsyncFIXDummyServer per cell with the real reader (and heartbeat) task: (A) every non-Logon class fed before the Logon exchange completes in each pre-session state and every non-Logon/Logout send in each state outside a session; (B) every integrity defect x message class x {before Logon, ACTIVE, RESENDREQ_AWAITING} x role x header order, alone and with valid frames behind it in the same read; (C) every disconnect cause incl. double causes followed by valid frames and sends. No delivery, no counter movement, drop (+Logout with reason where the counterparty is identifiable), silence afterwards, on_disconnect exactly once.",
+         "too-low frames with PossDupFlag=Y or of type SequenceReset, and non-numeric MsgSeqNum, are outside the judged zone"),
  "C02": ("exploration", "independent strict framer as oracle on encoder output and on every tapped transport write", "§4 C02",
          "Every byte string the encoder returns for generated messages (incl. non-ASCII) and every write() of a real connection during random session histories is parsed by an independent strict FIX framer (BodyLength/CheckSum recomputed on bytes).",
          "vf.ref.fixwire is the definition of well-formed; empty values tolerated"),
